@@ -113,7 +113,24 @@ pub fn judge(call: usize, a: [f64; 2], b: [f64; 2], l: Option<&mut Local>) -> Ve
     Verdict::Pass
 }
 
+pub fn hist_judge(c: &crate::hist::HCall, l: Option<&mut Local>) -> Verdict {
+    use crate::api::Op;
+    match c.as_op() {
+        Some(Op::div) => judge(0, c.a, c.b, l),
+        Some(Op::div_assign) => judge(1, c.a, c.b, l),
+        Some(Op::div_f) => judge(2, c.a, c.b, l),
+        Some(Op::div_assign_f) => judge(3, c.a, c.b, l),
+        Some(Op::f_div) => judge(4, c.a, c.b, l),
+        // recip(x): the judge takes its operand in the divisor slot
+        Some(Op::recip) => judge(5, [1.0, 0.0], c.a, l),
+        _ => Verdict::Skip,
+    }
+}
+
 pub fn replay(call: &str, _clause: &str, args: &[u64]) -> Verdict {
+    if call == "hist" {
+        return crate::hist::replay(args, &hist_judge);
+    }
     let ci = CALLS.iter().position(|c| *c == call).expect("unknown call");
     judge(ci, [f64::from_bits(args[0]), f64::from_bits(args[1])], [f64::from_bits(args[2]), f64::from_bits(args[3])], None)
 }
@@ -302,5 +319,13 @@ pub fn run(r: &mut Runner) {
                 }
             }
         });
+    }
+    {
+        use crate::api::Op;
+        let pairs = [([3.0, 3.0 * 2f64.powi(-60)], [3.0, 0.0]), ([1.5, 1e-17], [1.25, -3e-18]), ([1.0, 2f64.powi(-60)], [7.0, 1e-16])];
+        let mut groups = crate::hist::binary_groups(&[Op::div, Op::f_div], &pairs);
+        groups.extend(crate::hist::binary_groups(&[Op::div_assign, Op::div_f], &pairs[..2]));
+        groups.extend(crate::hist::unary_groups(&[Op::recip], &[[3.0, 1e-16], [0.7, -2e-17]], [5.0, 0.0]));
+        crate::hist::explore(r, "histories: / and recip (operand orders, signs, low words, assign forms)", &groups, 3, &hist_judge, 14u64 << 55);
     }
 }
